@@ -390,6 +390,31 @@ func (ex *Exec) tableGet(w *World, id string, key []*smt.Term) *BytesV {
 	return nil
 }
 
+// hasTerm is the presence of a row as a term (no forking): the writes of this path folded over
+// the unknown initial contents.
+func (ex *Exec) hasTerm(w *World, id string, key []*smt.Term) *smt.Term {
+	t := w.table(ex, id)
+	r := smt.App(t.Base+"!has", smt.Bool, key...)
+	if len(key) == 0 {
+		r = smt.Var(t.Base+"!has", smt.Bool)
+	}
+	for _, wr := range t.Writes {
+		c := keysEq(key, wr.Key)
+		if c.IsFalse() {
+			continue
+		}
+		var v *smt.Term
+		switch {
+		case wr.HavocHas != nil:
+			v = wr.HavocHas
+		default:
+			v = smt.BoolC(wr.Present)
+		}
+		r = smt.Ite(c, v, r)
+	}
+	return r
+}
+
 func (ex *Exec) tableSet(w *World, id string, key []*smt.Term, val *BytesV) {
 	if val != nil && val.Tag == "marshal" {
 		ex.rowInvWrite(id, key, val)
